@@ -8,6 +8,11 @@ def task(kind, ident, marker_dir, delay):
     time.sleep(delay)
     if kind == "die":
         os._exit(33)
+    if kind == "sysexit":
+        import sys
+        sys.exit(101)
+    if kind == "kbint":
+        raise KeyboardInterrupt(102)
     if kind == "raise":
         raise KeyError(ident)
     pathlib.Path(marker_dir, f"done_{ident}").write_text("x")
